@@ -554,7 +554,10 @@ func (e *env) timeouts() {
 				}
 				from := time.Now()
 				stallAt(c, step, nil)
-				add(&obs{sc: scen{Kind: "handshake-timeout", Step: step, Env: e.name}, T: e.th, from: from, ac: e.find(c.LocalAddr(), dialAt, W), c: c})
+				// "not too early" is measured from the moment before the dial: the server cannot have started its
+				// handshake timer before the connection was asked for, whereas this goroutine may be scheduled late
+				// after connect() has returned (312 ms of 400 ms measured from `from` on a loaded fresh sandbox)
+				add(&obs{sc: scen{Kind: "handshake-timeout", Step: step, Env: e.name}, T: e.th, from: from, lo: dialAt, ac: e.find(c.LocalAddr(), dialAt, W), c: c})
 			}(step)
 		}
 	}
@@ -610,13 +613,17 @@ func (e *env) timeouts() {
 					if proto == "h2" {
 						hn = "x-verif-tag"
 					}
+					var served time.Time
 					for q := 0; q <= rep%2; q++ {
+						// the idle period cannot start before the last served request was sent (stamped before the
+						// request, not after the response: the server arms its timer when it has written the
+						// response, which this goroutine may learn late on a loaded machine)
+						served = time.Now()
 						if _, err := s.Do("GET", "/idle", "front.example", [][2]string{{hn, fmt.Sprintf("C11-idle-%s-%d-%d-%s", proto, rep, q, act)}}, nil, 10*time.Second); err != nil {
 							s.Close()
 							return
 						}
 					}
-					served := time.Now() // the idle period cannot start before the last served request completed
 					if proto == "h2" && act != "request" {
 						for _, a := range strings.Split(act, "+") {
 							h2Act(s, a)
